@@ -71,7 +71,12 @@ def run_history(case):
     pool = build_pool(world, pool_cfg, sync=case["sync"])
     specs = []
     for i, r in enumerate(case["requests"]):
-        specs.append({"method": "GET", "url": url_of(r["origin"]) + f"/t/r{i}", "sni": r.get("sni")})
+        spec = {"method": "GET", "url": url_of(r["origin"]) + f"/t/r{i}", "sni": r.get("sni"), "headers": [["x-tok", f"r{i}"]]}
+        forward = case["proxy"] in ("http", "https") and r["origin"]["scheme"] == "http"
+        if r.get("ext") and not forward:
+            # the documented `target` extension replaces the request target only: the request still belongs to its URL's origin
+            spec.update(method="OPTIONS", ext_target=b"*")
+        specs.append(spec)
     outs = []
     if case["sync"]:
         for s in specs:
@@ -224,7 +229,8 @@ def histories(draw):
     v["host"] = base["host"].upper()
     near.append(v)
     n = draw(st.integers(2, 6))
-    reqs = [{"origin": near[draw(st.integers(0, len(near) - 1))], "sni": draw(st.sampled_from([None, None, None, "sni.example"]))}
+    reqs = [{"origin": near[draw(st.integers(0, len(near) - 1))], "sni": draw(st.sampled_from([None, None, None, "sni.example"])),
+             "ext": draw(st.sampled_from([False, False, False, False, True]))}
             for _ in range(n)]
     h1, h2 = draw(st.sampled_from([(True, False), (True, True), (False, True)]))
     return {"proxy": draw(st.sampled_from(list(PROXIES))), "http1": h1, "http2": h2, "alpn": draw(st.sampled_from(["h2", "http/1.1", None])),
